@@ -342,7 +342,7 @@ func (c *c34Case) launch(roots []int, label int, start <-chan struct{}) *c34RunR
 var c34FocusSites = []string{
 	"incr.wait.beforeCheckCycle", "incr.wait.beforeCheckCycle", "incr.run.beforeExecute", "incr.run.beforeExecute",
 	"incr.run.afterExecute", "incr.run.beforeCAS", "incr.run.deferred", "incr.wait.parked", "incr.wait.woken",
-	"incr.sema.beforeAcquire", "incr.resolve.beforeRelease", "incr.resolve.afterJoin", "incr.run.enter",
+	"incr.sema.beforeAcquire", "incr.resolve.beforeRelease", "incr.resolve.afterJoin", "incr.run.enter", "incr.run.follower",
 }
 
 type c34Stats struct {
@@ -416,33 +416,38 @@ func runC34Case(r *vlib.Run, c *c34Case, rng *vlib.RNG, st *c34Stats) {
 			if res == waitUndecided {
 				r.Inconclusive("C34: a Run did not return and the quiescence criterion was not met within the limit")
 			} else {
-				// classify by logical facts of the history, not by timing
+				// classify by logical facts of the history, not by timing: at quiescence every
+				// query in the closure of the hanging Run's roots has been started, so a key that
+				// is neither memoised nor was ever executed is a pending result nobody computes.
+				keysNow, _ := parseKeys(c.exec.Keys(), "incr.c34Key")
+				need := closureOf(c.cl, maskOf(rr.roots)) &^ keysNow
 				c.mu.Lock()
-				var panickedHere, panickedOther bool
-				for _, e := range c.execs[execFrom:] {
+				var startedNow, panickedNow, panicked uint32
+				for i, e := range c.execs {
 					if e.outcome == "panic" {
-						if e.label == rr.label {
-							panickedHere = true
-						} else {
-							panickedOther = true
+						panicked |= 1 << uint(e.key)
+					}
+					if i >= execFrom {
+						startedNow |= 1 << uint(e.key)
+						if e.outcome == "panic" || e.outcome == "ctx" {
+							panickedNow |= 1 << uint(e.key)
 						}
 					}
 				}
 				c.mu.Unlock()
-				ctxt := "no panic anywhere in the history"
+				started := startedNow
+				ctxt := "no query panicked anywhere in the history"
 				switch {
-				case panickedOther && everPanicked != 0:
-					ctxt = "a query panicked in an earlier Run and in a concurrent Run"
-				case panickedOther:
-					ctxt = "a query panicked in a concurrent Run on the same executor"
-				case everPanicked != 0:
-					ctxt = "a query panicked in an earlier Run that already returned"
+				case need&^startedNow != 0 && panicked != 0:
+					ctxt = "it waits for a query that nobody executes (after a panic, a pending result was left behind by a task that did not get to run)"
+				case need&panickedNow != 0:
+					ctxt = "it waits for a pending result whose leader, in a concurrent Run, panicked or was cancelled by a panic and dropped the result without completing it"
+				case panicked != 0:
+					ctxt = "a query panicked elsewhere in the history"
 				}
-				if panickedHere {
-					ctxt += "; a query also panicked in the hanging Run itself"
-				}
-				viol("run.hang", fmt.Sprintf("Run never returns (all its goroutines parked in %s): %s", strings.Join(snap.blockers, "+"), ctxt),
-					map[string]any{"step": si, "hanging_run_roots": rr.roots, "goroutines_of_the_case": snap.lines})
+				sw := map[string]any{"step": si, "hanging_run_roots": rr.roots, "goroutines_of_the_case": snap.lines,
+					"needed_not_memoised": maskList(need), "not_executed_in_this_step": maskList(need &^ started), "panicked": maskList(panicked)}
+				viol("run.hang", fmt.Sprintf("Run never returns (all its goroutines parked in %s): %s", strings.Join(snap.blockers, "+"), ctxt), sw)
 			}
 			break
 		}
@@ -488,6 +493,12 @@ func runC34Case(r *vlib.Run, c *c34Case, rng *vlib.RNG, st *c34Stats) {
 		for _, e := range c.execs {
 			if e.outcome == "ok" || e.outcome == "cycle" || e.outcome == "err" || e.outcome == "ctx" {
 				lastOK[e.key] = true
+			}
+		}
+		var everOK uint32 // keys that produced a value at some point
+		for _, e := range c.execs {
+			if e.outcome == "ok" {
+				everOK |= 1 << uint(e.key)
 			}
 		}
 		lastRet := map[int]error{}
@@ -562,7 +573,24 @@ func runC34Case(r *vlib.Run, c *c34Case, rng *vlib.RNG, st *c34Stats) {
 				return
 			}
 			if c.swallow {
-				continue // results are schedule-dependent by construction; only termination/permits/keys are checked
+				// results are schedule-dependent by construction; only termination/permits/keys are
+				// checked. Recorded (not judged): a root whose only Execute returned nil but whose
+				// memoised result carries an error — the trace S9 leaves behind.
+				if everPanicked == 0 && injectedAll == 0 {
+					for i, root := range rr.roots {
+						n, okRet := 0, false
+						for _, e := range execs {
+							if e.key == root {
+								n++
+								okRet = e.outcome == "ok"
+							}
+						}
+						if n == 1 && okRet && rr.results[i].Fatal != nil {
+							notes = append(notes, fmt.Sprintf("fatal-without-execute-error: root %d's Execute returned a value and no error, yet its result carries %s", root, firstLine(rr.results[i].Fatal.Error())))
+						}
+					}
+				}
+				continue
 			}
 			for i, root := range rr.roots {
 				res := rr.results[i]
@@ -577,6 +605,13 @@ func runC34Case(r *vlib.Run, c *c34Case, rng *vlib.RNG, st *c34Stats) {
 					// final result, and a pending result is only handed out with a cycle error.
 					if cyclic {
 						viol("cycle.missed", "a root whose dependency closure contains a cycle came back without an error", sw)
+						return
+					}
+					if bad := c.cl[root] & maskOf(step.Panic) &^ everOK; bad != 0 {
+						// Schedule-independent: these queries have never produced a value, and the
+						// root's value is a function of theirs.
+						sw["panicking_dependencies_without_any_value"], sw["got"] = maskList(bad), res.Value
+						viol("panic.zero-value-served", "Run returned err=nil and a value for a root that depends on a query that only ever panicked: a caller in another Run saw the panicked query as a zero Result without error", sw)
 						return
 					}
 					if res.Value != c.ref[root] {
@@ -684,7 +719,7 @@ func runC34Case(r *vlib.Run, c *c34Case, rng *vlib.RNG, st *c34Stats) {
 	}
 	r.Class(fmt.Sprintf("parallelism-%d", c.par))
 	r.Class("mode-" + mode)
-	if strings.HasSuffix(c.id, "/0") {
+	if c.id == "dg3/100/0" || c.id == "rnd/0" || c.id == "s9/0" {
 		r.Sample("history:"+c.id, witness(map[string]any{"trace": trace.String()}))
 	}
 }
